@@ -131,6 +131,15 @@ def main(pid, tier, seed):
             rx = rng.choice([None, None, None] + [[r] for r in REGEXES] + [['^A', 'D']])
             copy = rng.random() < 0.5
             jobs.append(dict(k=k, e=e, name=name, mn=mn, mx=mx, ts=ts, rx=rx, copy=copy, with_x=with_x, base=base))
+        # exact bounds: min = max = the label length of one structure, so every guess of every survivor must have exactly that
+        # length (structures whose letters have several case masks first: each mask must spell a word of the same length)
+        def lab_len(s_):
+            return sum(4 if m_.group(1) == 'Y' else int(m_.group(2)) for m_ in re.finditer(r'([A-Z])([0-9]+)', s_))
+        cands_ = [s_ for s_, _ in base if s_ != 'M' and 'X' not in s_ and lab_len(s_) < 100]
+        cands_.sort(key=lambda s_: (not any(u in s_ for u in ('A2', 'A1D', 'A1O', 'A1K', 'A1Y', 'A8')), s_))
+        for x_, s_ in enumerate(cands_[:2]):
+            jobs.append(dict(k=k, e=n_edits + 1 + x_, name=name, mn=lab_len(s_), mx=lab_len(s_), ts=None, rx=None, copy=False,
+                             with_x=with_x, base=base))
         if any('A101' in s_ for s_, _ in base):
             # a bound only the three-digit structure satisfies
             jobs.append(dict(k=k, e=n_edits, name=name, mn=100, mx=rng.choice([0, 103, 110]), ts=None, rx=None, copy=False, with_x=with_x, base=base))
